@@ -9,9 +9,12 @@
                       the database; sql.DB.Begin() does NOT tie the transaction to the caller's
                       context, so Commit/Rollback are unaffected by it
        the body       any sequence of <= MaxStmts statements (each ok or failing WITH SOME ERROR
-                      VALUE, of several kinds), then returns nil / returns an error / panics --
-                      independently of whether its statements failed (a body may swallow a
-                      statement error)
+                      VALUE, of several kinds), then returns nil / returns an error (a value of
+                      some kind, ErrKinds) / panics WITH SOME VALUE (PanicKinds: Go lets a body panic
+                      with a value of ANY type -- an error, a string, but just as well an int, a
+                      struct, a pointer, a slice, false, a typed nil pointer, nil ...; the property
+                      says "or panicked", whatever the value) -- independently of whether its
+                      statements failed (a body may swallow a statement error)
        the database   Commit / Rollback succeed or fail (with some error value)
        the caller     its context (TransactCtx) may be cancelled or hit its deadline before the
                       call or between any two statements of the body (incl. just before the body
@@ -38,8 +41,11 @@ CONSTANTS
   MaxStmts,    \* body length bound
   Kinds,       \* statement kinds: subset of {"exec", "query", "prep", "nest"}
   ErrKinds,    \* which error a failing body returns: "plain" (its own / the failed statement's),
-               \* or one the connection's breaker finds acceptable: "norows" "notfound" "canceled" "txdone"
-  PanicKinds,  \* what a panicking body panics with: "str" | "err" | "rt" (a runtime error)
+               \* or one the connection's breaker finds acceptable: "norows" "notfound" "canceled" "txdone",
+               \* other sentinels "bad" "deadline", or an error of an unusual SHAPE: "custom" (a struct type
+               \* of the caller's), "nilerr" (a nil pointer of a pointer type that implements error: a
+               \* non-nil error), "wrap" (fmt.Errorf("%w") around sql.ErrNoRows), "join" (errors.Join)
+  PanicKinds,  \* what a panicking body panics with (see AllPanicKinds below)
   Breaker,     \* TRUE: the connection's circuit breaker may reject the call
   Emit,        \* TRUE: print scripts
   BeginOuts,   \* answers to a Begin attempt: "ok", "bad" (driver.ErrBadConn: retried), "noconn", "fail"
@@ -62,6 +68,22 @@ VARIABLES
 
 ivars == <<pc, ierr, ipanic, irep, att, icx, ibad, iretried, script>>
 vars  == <<cs, dev, pc, ierr, ipanic, irep, att, icx, ibad, iretried, script>>
+
+\* ---- the values a body may panic with (recover() returns the value; any type is legal) ----
+\* errors: an ordinary one, a runtime error (nil-map write), sentinels the breaker / database/sql treat
+\* specially, a wrapped sentinel, a nil pointer of an error type, panic(nil) (Go >= 1.21, as go.mod says:
+\* recover() returns a *runtime.PanicNilError)
+ErrorPanics    == {"err", "rt", "e:norows", "e:canceled", "e:txdone", "e:bad", "e:wrap", "nilerr", "nil"}
+\* strings (also the empty one) and fmt.Stringers
+TextPanics     == {"str", "empty", "stringer"}
+\* everything else: no error, no text -- plain data, "falsy" values (0, false), typed nil pointer,
+\* reference types
+OtherPanics    == {"int", "zero", "code", "bool", "float", "struct", "ptr", "nilptr", "slice", "map", "func", "chan"}
+AllPanicKinds  == ErrorPanics \cup TextPanics \cup OtherPanics
+\* what a conversion "recovered value -> error" by a type switch WITHOUT default branch handles
+\* (seeded defect panicValueLost); the rest it turns into a nil error
+ConvertiblePanics == ErrorPanics \cup TextPanics
+ASSUME PanicKinds \subseteq AllPanicKinds
 
 T == 1
 Rec(ev) == Observe(T, ev)
@@ -187,6 +209,14 @@ Defer(fin, fk) ==
        noEnd("err")
      ELSE IF ipanic THEN       \* if p := recover(); p != nil { tx.Rollback() ... err = fmt.Errorf("recover from ...") }
        CASE Variant = "panicNotRecovered" -> noEnd("panic")
+         \* seeded: "err = toError(recover()); if err != nil {Rollback} else {Commit}" where toError knows
+         \* errors, strings and Stringers only: any other panic value is swallowed and the half-done
+         \* transaction COMMITTED
+         [] Variant = "panicValueLost" /\ script.ek \notin ConvertiblePanics
+                                          -> commit(IF fin THEN "nil" ELSE "err", IF fin THEN {} ELSE {"commit"})
+         \* seeded: rolls back, but re-panics with values that are not errors ("not ours to interpret")
+         [] Variant = "panicRethrown" /\ script.ek \notin ErrorPanics
+                                          -> rollback("panic", rbRep)
          [] Variant = "panicSwallowed"    -> rollback("nil", rbRep)
          [] Variant = "rollbackErrDropped"-> rollback("err", {})
          [] OTHER                         -> rollback("err", rbRep)
@@ -259,9 +289,16 @@ Done == pc = "done" => cs[T].ret = ierr
 \* transaction was ended by exactly one Commit/Rollback of its own, whatever happened to ctx
 CtxBlind == pc = "done" /\ Variant = "ok" => CtxExcusesNothing /\ ~Excused(cs[T])
 
+\* "rolls back if the body ... panicked (the panic is reported as an error, not swallowed as success)":
+\* whatever VALUE the body panicked with, the call rolled back (never committed) and returned an error
+PanicValueBlind == pc = "done" /\ script.end = "panic" =>
+     /\ cs[T].ret = "err" /\ HasE(cs[T].log, "rollback") /\ ~HasE(cs[T].log, "commit")
+     /\ cs[T].tx \in {"rolledBack", "rollbackFailed"}
+
 \* everything the algorithm's next step depends on (Variant "ok"): hides script and history, so
 \* TLC covers bodies of unbounded length with MaxStmts huge (TxImplMCU.cfg)
-ImplView == <<pc, ierr, ipanic, irep, att, icx, ibad, iretried, dev, StateView>>
+\* (how the body ended and with which error / panic VALUE stays visible: one state per value)
+ImplView == <<pc, ierr, ipanic, irep, att, icx, ibad, iretried, dev, StateView, script.end, script.ek>>
 
 \* ---- test generation: one fault script per complete behaviour ----
 \* (with the Layer-P history the model predicts for it: the runner reports how many replays on
